@@ -237,6 +237,7 @@ func main() {
 	genPipeShape(root, out)
 	genLBGuard(root, out)
 	genDialerCtx(root, out)
+	genCookieScratch(root, out)
 }
 
 var tableNames = []string{
